@@ -220,6 +220,10 @@ def specs(draw, max_formulas=14, with_arrays=True, with_names=True,
             return f'=ROUND({ref()}/3,2)'
         if kind == 26:
             return f'=COUNTIFS({rect()[0]},"<>"&{ref()})'
+        if kind == 27:
+            # an empty text as result: stored in a workbook as <v></v>, which
+            # openpyxl reads as None (= not calculated, for the compiler)
+            return f'=IF({ref()}>0,{ref()},"")'
         if kind == 28:
             # a plain formula whose result is a range (shows its first cell)
             return f'={rect()[0]}'
